@@ -11,6 +11,7 @@ import (
 // VerifResetPools empties every library pool so that each case starts from the same global state.
 func VerifResetPools() {
 	VerifDrainChanPools()
+	VerifResetLazyGlobals()
 	vsync.ResetAll()
 	usePool = true
 }
